@@ -320,6 +320,17 @@ S = {
 }
 
 
+# remarks printed in the table (why a change is not, or no longer, detected; rebased patches)
+REMARK = {
+ "C05-4": "not a violation of the property as stated: with the change a mid-stream download error that carries data makes the restore FAIL (the stream is resumed at a stale offset and the checksum rejects it); C10 allows an error, C05 only asks that the replica stays restorable through a fault-free view. The demonstration asks for a transparent retry, which the property permits but does not demand. Kept as a documented non-detection; the bytes-with-error read shape was added to C05 and C10 because of it",
+ "C17-4": "equivalent on the property's input domain: it needs an LTX file whose Commit equals the lock page number, and SQLite never produces such a database (allocateBtreePage and the auto-vacuum truncation both step over the lock page)",
+ "C12-2": "neutralised by fix 0b54bc0 (F26): registrations of one path are serialised, so the weakened second duplicate check is never exercised concurrently; the demonstration no longer fails",
+ "C12-3": "caught by the C12 registration storm before fix 0b54bc0 (F26) (Store.DBs listed the path up to 16 times); that fix serialises registrations of one path, after which the change is harmless and its demonstration no longer fails",
+ "C12-4": "the first test of the demonstration asserted that a sync on a closed database returns nil, which fix 94c91f9 (F25) deliberately changed; the second test is used",
+ "C18-5": "patch rebased on the hydration fixes (patch.orig.diff is the sub-agent's original)",
+}
+
+
 def do_import():
     for sid, t in S.items():
         src = t[1]
@@ -380,8 +391,8 @@ def run(ids):
 
 
 def table():
-    print("| id | change | needs | demonstration confirmed | caught by (quick tier) |")
-    print("|----|--------|-------|------|------|")
+    print("| id | change | needs | demonstration confirmed | caught by (quick tier) | remark |")
+    print("|----|--------|-------|------|------|------|")
     for sid in S:
         mp = os.path.join(SEEDED, sid, "meta.json")
         meta = json.load(open(mp)) if os.path.exists(mp) else {}
@@ -390,7 +401,21 @@ def table():
         missed = [c for c, r in cs.items() if not r.get("caught")]
         if missed and caught != "**missed**":
             caught += "; not by " + ", ".join(missed)
-        print(f"| {sid} | {S[sid][7]} | {S[sid][8]} | {'yes' if meta.get('confirmed') else '?'} | {caught} |")
+        print(f"| {sid} | {S[sid][7]} | {S[sid][8]} | {'yes' if meta.get('confirmed') else 'no (see remark)'} | {caught} | {REMARK.get(sid, '')} |")
+
+
+def design():
+    """rewrites the table region of DESIGN.md"""
+    import io, contextlib
+    buf = io.StringIO()
+    with contextlib.redirect_stdout(buf):
+        table()
+    dp = os.path.join(ROOT, "DESIGN.md")
+    d = open(dp).read()
+    a, b = d.index("<!-- SEEDTABLE-BEGIN -->"), d.index("<!-- SEEDTABLE-END -->")
+    d = d[:a] + "<!-- SEEDTABLE-BEGIN -->\n" + buf.getvalue() + d[b:]
+    open(dp, "w").write(d)
+    print("DESIGN.md table rewritten:", buf.getvalue().count("\n") - 2, "rows")
 
 
 if __name__ == "__main__":
@@ -399,5 +424,7 @@ if __name__ == "__main__":
         do_import()
     elif cmd == "run":
         run(sys.argv[2:] or list(S))
+    elif cmd == "design":
+        design()
     else:
         table()
